@@ -186,8 +186,10 @@ def rewrite(dialect, style, sql, args):
                 raise ShimUnsupported('word:' + val, sql)
             elif val == 'LIMIT':
                 if 0 <= i + 1 < n and tokens[i + 1][0] == 'num' and tokens[i + 1][1] == MYSQL_MAX_LIMIT:
+                    if dialect != 'mysql': raise ShimUnsupported('limit-18446744073709551615-outside-mysql', sql)
                     text[i + 1] = '-1'; seen['limit.18446744073709551615'] += 1
                 elif is_word(i + 1, 'NULL'):
+                    if dialect != 'postgres': raise ShimUnsupported('limit-null-outside-postgres', sql)   # MySQL: syntax error
                     text[i + 1] = '-1'; seen['limit.null'] += 1
                 elif not (0 <= i + 1 < n and tokens[i + 1][0] == 'num'):
                     raise ShimUnsupported('limit-form', sql)
@@ -201,13 +203,21 @@ def rewrite(dialect, style, sql, args):
                     text[i] = 'string_agg_distinct'; text[i + 2] = ''; seen['pg.string_agg_distinct'] += 1
                 else: seen['pg.string_agg'] += 1
             elif val == 'GROUP_CONCAT' and is_op(i + 1, '('):
+                if dialect != 'mysql': raise ShimUnsupported('word:GROUP_CONCAT', sql)
                 close = match[i + 1]
-                depth, j, sep = 0, i + 2, None
+                depth, j, sep, commas = 0, i + 2, None, 0
                 while j < close:
                     if is_op(j, '('): depth += 1
                     elif is_op(j, ')'): depth -= 1
+                    elif depth == 0 and is_op(j, ','): commas += 1
                     elif depth == 0 and is_word(j, 'SEPARATOR'): sep = j; break
                     j += 1
+                if commas:
+                    # MySQL GROUP_CONCAT(e1, e2): the expressions are concatenated per row (NOT a separator argument)
+                    first = i + 3 if is_word(i + 2, 'DISTINCT') else i + 2
+                    last = (sep if sep is not None else close) - 1
+                    pre[first] = 'concat(' + pre[first]; post[last] = post[last] + ')'
+                    seen['mysql.group_concat_multi_expr'] += 1
                 if sep is not None:
                     text[sep] = ','
                     if is_word(i + 2, 'DISTINCT'):
